@@ -181,4 +181,30 @@ CHECKS = {
         "level_note": "The zero case 'a period whose end has passed' is not observable through the API (BeginBlock advances the period before any query can run at that block time) and is not exercised. Tolerance terms: two truncations, millisecond truncation of linear period endpoints, 18-digit resolution of the reported inflation.",
         "design_ref": "DESIGN.md §5 C19",
     },
+    "C17": {
+        "title": "Genesis lineage of vesting accounts and vesting summaries are accurate",
+        "level": "exploration",
+        "technique": "stateful property-based testing (rapid state machine) against a lineage reference model (transitive closure) and summaries recomputed from bank and account state",
+        "tests": [T("TestC17", 300, 1500, qshards=2, steps=60)],
+        "rule": "cases = world seeded through keeper setters with 2-6 pools (genesis flag drawn per pool) for two owners and 0-3 vesting accounts (genesis-traced, non-genesis traced, untraced), then a rapid state machine (avg 60 steps) over pool sends, direct creations, split / move / move-by-denoms (from recent accounts and from the deepest account of the genesis and of the non-genesis line), real MsgDelegate / MsgUndelegate and time advances. After every step: {traced addresses} and {addresses recorded as genesis-derived} equal the model's sets (genesis-derived = from a genesis pool, or seeded genesis account, or split/moved from a genesis-derived traced account), and both summary queries equal (pools, sum of still-vesting coins of the recorded accounts, vesting - locked) recomputed from bank LockedCoins and the accounts' vesting schedules. "
+                "Non-trivial = a chain of depth >= 2 from a genesis root and one from a non-genesis root. Distinct = SHA-256 of the history.",
+        "min_nontrivial_fraction": 0.15,
+        "min_class_fraction": {"chain_depth_ge4": 0.15},
+        "level_text": "Lineage is a transitive property over operation chains; the machine grows chains to depth 4+ in a third of the cases and compares the module's trace list with an independent closure after every step.",
+        "level_note": "Bounds: one vesting denomination, <= ~120 steps.",
+        "design_ref": "DESIGN.md §5 C17",
+    },
+    "C13": {
+        "title": "Only governance changes parameters, and stored parameters stay valid",
+        "level": "exploration",
+        "technique": "stateful property-based testing (rapid state machine) over the seven parameter-update messages x authority strings x valid / mutated / partially valid payloads; invariant + exact-effect oracle after every step",
+        "tests": [T("TestC13", 400, 2000, qshards=2, steps=40)],
+        "rule": "cases = generated valid minter and distributor configurations, then a rapid state machine (avg 40 steps): blocks (the minter's current period advances), pool creation, minter MsgUpdateParams / MsgUpdateMintersParams (valid around the current period, or one of 10 invalidating mutations; denomination from {uc4e, uatom, '', x}), distributor MsgUpdateParams (valid or one of 5 mutations), MsgUpdateSubDistributorParam (a drawn sub-distributor under an existing or unknown name - individually valid, possibly breaking the whole-configuration ordering rule), destination-share and burn-share updates (pool values, values making the sum >= 1, out-of-range values, unknown names), MsgUpdateDenomParam; authority drawn from {gov x3, a user, a module address, '', garbage}. Real path: ValidateBasic then the registered handler with baseapp semantics. "
+                "After every step: the stored parameters of the three modules validate, the minter's current period is in the stored configuration, a non-governance authority is rejected, a rejected message leaves all three parameter sets byte-identical, an accepted message stores exactly its documented effect (full replacement / minters+start / one sub-distributor / one share / one burn share / denomination), the vesting denomination never changes while pools exist. Non-trivial = a rejected update after at least two accepted partial updates. Distinct = SHA-256 of the history.",
+        "min_nontrivial_fraction": 0.2,
+        "min_class_fraction": {"non_gov_authority": 0.5, "invalid_minter_payload": 0.2, "invalid_distributor_payload": 0.2, "some_update_accepted": 0.5},
+        "level_text": "Sequences of full and partial updates are applied through the registered handlers and the stored parameters are compared, as canonical JSON, with the documented effect of each accepted message and with the unchanged pre-state for each rejected one.",
+        "level_note": "Signature verification (a user cannot sign for the governance address) is x/auth's ante handler and is exercised in ABCI mode by C11/C12, not here.",
+        "design_ref": "DESIGN.md §5 C13",
+    },
 }
